@@ -233,6 +233,14 @@ class LevyTriplet:
         if self.representation == LevyRepresentation.ONEONE:  # canonical representation
             return self.a
 
+        if (
+            self.representation == LevyRepresentation.ZERO
+            and not self.nu.jump_of_finite_variation()
+        ):
+            raise ValueError(
+                "the ZERO representation requires jumps of finite variation"
+            )
+
         adj = 0
         if self.representation == LevyRepresentation.ZERO or (
             self.representation == LevyRepresentation.TILDE
@@ -253,6 +261,10 @@ class LevyTriplet:
         """
         :return: the drift in the `zero` representation
         """
+        if not self.nu.jump_of_finite_variation():
+            raise ValueError(
+                "the ZERO representation requires jumps of finite variation"
+            )
         canonical_drift = self.canonical_drift()
         adj = -self.nu.integrate_against_x(-1, +1)
         return canonical_drift + adj
